@@ -79,7 +79,8 @@ type Scenario struct {
 	Dup       int      `json:"dup,omitempty"`
 	UDPSize   int      `json:"udp_size,omitempty"`
 	Decorate  bool     `json:"decorate,omitempty"`
-	Junk      int      `json:"junk,omitempty"` // datagrams the server must drop or refuse (QR set, unsupported opcode, short), sent by a stranger between the exchanges
+	Transient []int    `json:"transient,omitempty"` // these accept / datagram-read attempts of the servers' sockets fail once with a temporary, non-timeout error (EINTR, ECONNABORTED): nothing was consumed, the attempt is repeated
+	Junk      int      `json:"junk,omitempty"`      // datagrams the server must drop or refuse (QR set, unsupported opcode, short), sent by a stranger between the exchanges
 	Clients   []Client `json:"clients,omitempty"`
 	UDPSock   bool     `json:"udp_sock,omitempty"`   // the datagram server runs on a UDP socket (SessionUDP branch with control messages) where the build has that seam, not on a generic PacketConn
 	PostYield bool     `json:"post_yield,omitempty"` // the return of every transport operation is a scheduling point of its own
@@ -172,6 +173,12 @@ func Gen(seed uint64, tier string) any {
 	sc.Decorate = core.Chance(r, 30)
 	if core.Chance(r, 35) {
 		sc.Junk = 1 + r.IntN(6)
+	}
+	if core.Chance(r, 10) {
+		sc.Transient = []int{r.IntN(3)}
+		if core.Chance(r, 40) {
+			sc.Transient = append(sc.Transient, sc.Transient[0]+1+r.IntN(2))
+		}
 	}
 	if core.Chance(r, 50) {
 		sc.UDPSock = true
@@ -1950,6 +1957,7 @@ func runExchange(sc *Scenario, res *core.Result, verbose bool) {
 	}
 	x.uc = n.ListenUDP([]string{"10.0.0.1:53", "10.0.0.7:53", "[fd00::1]:53"}[:x.homes]...)
 	x.pc = x.uc.PacketConn
+	x.l.Transient, x.pc.Transient = sc.Transient, sc.Transient
 	mk := func() *dns.Server {
 		s := &dns.Server{Handler: x, UDPSize: sc.UDPSize, ReadTimeout: time.Hour, IdleTimeout: hourIdle, TsigSecret: map[string]string{tsigKey: tsigSecret}}
 		if sc.ShortIdle {
